@@ -1,6 +1,6 @@
 (* C08 - The table manager's log records exactly what was played (every schedule).
    Only statements, each closed by [exact]; proofs are in the files imported below. *)
-From BE Require Import Model.Session Model.SessionTie Spec.SessionSpec Proofs.Kahn Proofs.Session Proofs.SessionExamples.
+From BE Require Import Model.Session Model.SessionTie Spec.SessionSpec Proofs.Kahn Proofs.Session Proofs.SessionExamples Model.Conform Model.Json Proofs.RecordSpec.
 From Coq Require Import ZArith.
 Local Open Scope nat_scope.
 Local Open Scope list_scope.
@@ -54,6 +54,14 @@ Theorem C08_log_wellformed :
   forall x l s, srun l (init_state x) = Some s -> log_prefix (log_events (nconn x) s).
 Proof. exact log_always_wellformed. Qed.
 Print Assumptions C08_log_wellformed.
+
+(* FULL, for every board and every conforming script (sequential, no threads): the record the table manager model builds with the MODEL functions (take_bid / contract_of, play_by / tricks, calc_score) is, as a JSON value, exactly record_spec of the sequential reference built with the SPEC functions (Laws, play reference, Law 77 formulas) *)
+Theorem C08_model_record_is_the_reference_record :
+  forall ns ew b sc r,
+  model_record (team_names ns ew) b sc = Some r ->
+  record_json r = record_spec ns ew (sboard_of b) (play_board (sboard_of b) (fun p => said_of (sc p))).
+Proof. exact model_record_is_record_spec. Qed.
+Print Assumptions C08_model_record_is_the_reference_record.
 
 (* non-vacuity: the real run of a two-board session equals the sequential reference (log and transcripts) *)
 Theorem C08_example_log_is_the_reference :
